@@ -455,9 +455,10 @@ func (r *Runner) Step() {
 		}
 		if r.chance(0.3) {
 			w.CatchUp = true
+			w.CatchUpOneByOne = r.chance(0.5)
 		}
 		r.Reconcile(set)
-		w.CatchUp = false
+		w.CatchUp, w.CatchUpOneByOne = false, false
 	case x < 55:
 		res := cachedRes[r.Rng.Intn(3)]
 		n := w.Pending(res)
@@ -525,6 +526,13 @@ func (r *Runner) userEdit() {
 	set := r.pick(r.Sets)
 	s := w.GetSet(set)
 	if s == nil {
+		// the user re-creates a deleted set under the same name (new UID)
+		if r.Cfg.DeleteSet && r.chance(0.5) {
+			o := r.randSetOpts(set)
+			o.TemplateV = r.Rng.Intn(4)
+			w.Srv.Seed(simapi.Sets, NewSet(o))
+			r.logf("user re-creates set %s", set)
+		}
 		return
 	}
 	x := r.Rng.Intn(100)
